@@ -633,7 +633,7 @@ def run(ctx: Ctx):
     for k in range(ctx.scale(140, 3000)):
         load_cases.append((f"load-gen:{k}", lrig.gen_load_case(lrng, max_ops=ctx.scale(20, 36))))
     mrng = ctx.rng.fork("load-multi")
-    for k in range(ctx.scale(40, 800)):
+    for k in range(ctx.scale(40, 300)):
         load_cases += views(f"load-multi:{k}", lrig.gen_load_case(mrng, max_ops=ctx.scale(16, 30), multi=True))
     results, lines_all, bounds = [], [], []
     for name, case in load_cases:
@@ -736,7 +736,8 @@ def run(ctx: Ctx):
     #    every state; at every real receive() / send() call the TRANSLATED chain is run on the observed environment
     rrig.load_names(run_driver, EXE_W)
     rrng = ctx.rng.fork("relay")
-    relay_cases = [rrig.gen_relay_case(rrng, max_ops=ctx.scale(24, 40)) for _ in range(ctx.scale(100, 2500))]
+    relay_corpus = [json.loads(f.read_text())["case"] for f in sorted((VERIF / "corpus" / "C13" / "relay").glob("*.json"))]
+    relay_cases = relay_corpus + [rrig.gen_relay_case(rrng, max_ops=ctx.scale(24, 40)) for _ in range(ctx.scale(100, 1200))]
     ragree, rcalls, rseen = 0, 0, {}
     for k, case in enumerate(relay_cases):
         res = rrig.run_relay_case(case)
